@@ -12,7 +12,9 @@
 (*                                                                         *)
 (* A track is the time-ordered sequence of observations already stored when *)
 (* the current radar observation arrives; each stored one is                *)
-(*   "arc"      radar observation of the target, at/after the detection time*)
+(*   "arc"      radar / advanced-radar observation of the target, at/after  *)
+(*              the detection time (the driver alternates the two kinds and  *)
+(*              stamps the sensor_type strings real sensors write)           *)
 (*   "before"   radar observation of the target, before the detection time  *)
 (*   "other"    radar observation of ANOTHER target                         *)
 (*   "optical"  optical (angles-only) observation of the target             *)
